@@ -170,3 +170,47 @@ Proof.
   pose proof (position_mono_in_line doc l sc ec Hle) as Hm. rewrite H1, H2 in Hm.
   destruct (N.leb_spec (len8s p1) (len8s p2)); [discriminate|lia].
 Qed.
+
+(** any ordered range, across lines too, never panics, whatever the positions (beyond the
+    line, beyond the text, inside a surrogate pair, inside a CRLF pair) *)
+Theorem change_never_panics doc sl sc el ec w :
+  pos_le sl sc el ec -> apply_change doc (CIncr sl sc el ec w) <> None.
+Proof.
+  intros Hle. cbn [apply_change]. unfold replace_range.
+  destruct (position_is_boundary doc sl sc) as (p1 & q1 & E1 & H1).
+  destruct (position_is_boundary doc el ec) as (p2 & q2 & E2 & H2).
+  rewrite H1, H2.
+  rewrite E1 at 1. rewrite split_at8_app. rewrite E2 at 1. rewrite split_at8_app.
+  pose proof (position_mono doc sl sc el ec Hle) as Hm. rewrite H1, H2 in Hm.
+  destruct (N.leb_spec (len8s p1) (len8s p2)); [discriminate|lia].
+Qed.
+
+(** a reversed range (end before start) is outside the protocol; the server dies on it *)
+Lemma reversed_range_panics : apply_change [97; 98] (CIncr 0 1 0 0 []) = None.
+Proof. reflexivity. Qed.
+
+(** whole histories: if every incremental change of every notification is an ordered range,
+    the server survives, whatever the positions and whatever the store *)
+Definition ordered_change (c : change) : Prop :=
+  match c with CFull _ => True | CIncr sl sc el ec _ => pos_le sl sc el ec end.
+Definition ordered_event (e : event) : Prop :=
+  match e with EChange _ cs => Forall ordered_change cs | _ => True end.
+
+Lemma changes_never_panic cs : Forall ordered_change cs -> forall doc, apply_changes doc cs <> None.
+Proof.
+  induction 1 as [|c cs Hc _ IH]; intros doc; cbn [apply_changes]; [discriminate|].
+  destruct (apply_change doc c) as [d|] eqn:E.
+  - apply IH.
+  - exfalso. destruct c as [t|sl sc el ec t]; [discriminate|].
+    exact (change_never_panics doc sl sc el ec t Hc E).
+Qed.
+
+Theorem server_survives h : Forall ordered_event h -> forall s, run s h <> None.
+Proof.
+  induction 1 as [|e h He _ IH]; intros s; cbn [run]; [discriminate|].
+  destruct (step s e) as [s'|] eqn:E; [apply IH|].
+  exfalso. destruct e as [u t|u cs|u]; cbn [step] in E; try discriminate.
+  destruct (st_get u s) as [doc|]; [|discriminate].
+  destruct (apply_changes doc cs) as [d|] eqn:E2; [discriminate|].
+  exact (changes_never_panic cs He doc E2).
+Qed.
